@@ -14,6 +14,19 @@ type BlockRange struct {
 	End   int // -1 means to end
 }
 
+// parseBlockNumber parses a block number: one or more decimal digits, no sign
+func parseBlockNumber(s string) (int, error) {
+	if s == "" {
+		return 0, fmt.Errorf("empty block number")
+	}
+	for i := 0; i < len(s); i++ {
+		if s[i] < '0' || s[i] > '9' {
+			return 0, fmt.Errorf("invalid block number: %s", s)
+		}
+	}
+	return strconv.Atoi(s)
+}
+
 // ParseBlockRange parses a block range string like "0:10" or "5:" or ":20" or "5"
 func ParseBlockRange(s string) (*BlockRange, error) {
 	if s == "" {
@@ -24,9 +37,13 @@ func ParseBlockRange(s string) (*BlockRange, error) {
 
 	if strings.Contains(s, ":") {
 		parts := strings.SplitN(s, ":", 2)
-		
+
+		if parts[0] == "" && parts[1] == "" {
+			return nil, fmt.Errorf("invalid block range: %s", s)
+		}
+
 		if parts[0] != "" {
-			start, err := strconv.Atoi(parts[0])
+			start, err := parseBlockNumber(parts[0])
 			if err != nil {
 				return nil, fmt.Errorf("invalid start block: %s", parts[0])
 			}
@@ -37,7 +54,7 @@ func ParseBlockRange(s string) (*BlockRange, error) {
 		}
 		
 		if parts[1] != "" {
-			end, err := strconv.Atoi(parts[1])
+			end, err := parseBlockNumber(parts[1])
 			if err != nil {
 				return nil, fmt.Errorf("invalid end block: %s", parts[1])
 			}
@@ -48,7 +65,7 @@ func ParseBlockRange(s string) (*BlockRange, error) {
 		}
 	} else {
 		// Single block number
-		block, err := strconv.Atoi(s)
+		block, err := parseBlockNumber(s)
 		if err != nil {
 			return nil, fmt.Errorf("invalid block number: %s", s)
 		}
